@@ -403,7 +403,7 @@ func c16Spaces(c *fw.Ctx) {
 			}
 		})
 
-	c.Space("rrset-sign-verify", "RRSIG.Sign and RRSIG.Verify over RRsets of 1..3 records of MX, TXT, SRV, NSEC, A (mixed-case owners and names, unsorted, with a duplicate): the RRset argument is unchanged afterwards; fresh ECDSA-P256 and Ed25519 keys; non-trivial: all", true,
+	c.Space("rrset-sign-verify", "RRSIG.Sign and RRSIG.Verify over RRsets of 1..3 records of MX, TXT, SRV, NSEC, A (mixed-case owners and names, unsorted, with a duplicate): the RRset argument is unchanged afterwards, and so are the RRSIG that Verify is called on and the DNSKEY (signer name and key owner in three case spellings); fresh ECDSA-P256 and Ed25519 keys; non-trivial: all", true,
 		func(emit func(func(*fw.R))) {
 			for _, t := range []uint16{15, 16, 33, 47, 1} {
 				for n := 1; n <= 3; n++ {
@@ -452,6 +452,26 @@ func c16Spaces(c *fw.Ctx) {
 							sig.Verify(key, set)
 							if after, _ := graph(set, false, true); after != before {
 								r.Fail("mutated-by/RRSIG.Verify/"+s.Mnem, "Verify changed the RRset:\n before %s\n after  %s", before, after)
+							}
+							// Verify's other two arguments — the RRSIG it is called on and the key — in the spellings a
+							// record from the wire can have: signer and key owner in mixed case, not the canonical form
+							for _, spell := range [][2]string{{"example.", "example."}, {"Example.", "EXAMPLE."}, {"eXAMPLE.", "example."}} {
+								sg := dns.Copy(sig).(*dns.RRSIG)
+								sg.SignerName = spell[0]
+								sg.Hdr.Name = "MiXed.Example."
+								k := dns.Copy(key).(*dns.DNSKEY)
+								k.Hdr.Name = spell[1]
+								bs, _ := graph(sg, false, true)
+								bk, _ := graph(k, false, true)
+								verr := sg.Verify(k, set)
+								as, _ := graph(sg, false, true)
+								ak, _ := graph(k, false, true)
+								if as != bs {
+									r.Fail("mutated-by/RRSIG.Verify/receiver", "Verify (result %v) changed the RRSIG it was called on (signer %q, key owner %q):\n before %s\n after  %s", verr, spell[0], spell[1], bs, as)
+								}
+								if ak != bk {
+									r.Fail("mutated-by/RRSIG.Verify/key", "Verify (result %v) changed the DNSKEY (signer %q, key owner %q):\n before %s\n after  %s", verr, spell[0], spell[1], bk, ak)
+								}
 							}
 						})
 					}
